@@ -10,7 +10,7 @@
       [static_table_ok] / [input_repr_table_ok] / [output_repr_table_ok];
    3. offsets read from cached metadata equal the offsets computed without it. *)
 From Coq Require Import Arith PeanoNat.
-From FV Require Import Codec.CodecInstances.
+From FV Require Import Codec.CodecInstances TxId.IdProofs.
 From FV Require Export Offsets.OffsetModel.
 Local Open Scope string_scope.
 Local Open Scope list_scope.
@@ -259,7 +259,7 @@ Proof.
       cbn [locate_fields]. rewrite En, N.add_0_r. reflexivity.
     + destruct (ssize t) as [a|] eqn:Ea; [|discriminate E].
       destruct (soff r name) as [[b ft']|] eqn:Eb; [|discriminate E]. injection E as <- <-.
-      destruct (IH vs name b ft' H2 eq_refl) as (fv & Hfv & L). exists fv. split; [exact Hfv|].
+      destruct (IH vs name b ft' H2 Eb) as (fv & Hfv & L). exists fv. split; [exact Hfv|].
       intros s' so dyo. cbn [locate_fields]. rewrite En.
       destruct (L s' (so + lenN (enc_static t v)) (dyo + lenN (enc_dynamic t v))) as [dyo' Ld].
       exists dyo'. rewrite Ld, (proj1 ssize_ok_all t v a H1 Ea). f_equal. lia.
@@ -314,4 +314,257 @@ Proof.
   intros H E. destruct (spath_ok path t v d ft H E) as (fv & Hfv & L). exists fv. split; [exact Hfv|].
   unfold locate_in. destruct (L (SHere PStatic) 0 (lenN (enc_static t v))) as [dyo' Ld].
   rewrite Ld, locate_here_static. reflexivity.
+Qed.
+
+(* ---------------------------------------------------------------- the tables against the schemas *)
+Fixpoint static_path_of (s : sel) : option (list string) :=
+  match s with
+  | SHere PStatic => Some []
+  | SField n s' => match static_path_of s' with Some p => Some (n :: p) | None => None end
+  | _ => None
+  end.
+Lemma static_path_sel s : forall path, static_path_of s = Some path -> s = sel_path path (SHere PStatic).
+Proof.
+  induction s as [p|n s' IH|n s' IH|i s' IH]; intros path H; cbn [static_path_of] in H; try discriminate H.
+  - destruct p; try discriminate H. injection H as <-. reflexivity.
+  - destruct (static_path_of s') as [q|]; [|discriminate H]. injection H as <-. cbn [sel_path]. f_equal. apply IH. reflexivity.
+Qed.
+
+Definition tx0 (k : kind) (v : val) : otx := {| o_kind := k; o_val := v; o_meta := None |}.
+(* a value on which the value-independent static offsets are evaluated *)
+Definition wit (k : kind) : val := match k with KMint => default_val S_Mint | _ => VUnit end.
+Definition all_tfn : list tfn :=
+  [ScriptGasLimitOffset; ReceiptsRootOffset; ScriptOffset; ScriptDataOffset; BytecodeWitnessIndexOffset; SaltOffset;
+   StorageSlotsOffsetStatic; UpgradePurposeOffset; BytecodeRootOffset; SubsectionIndexOffset; SubsectionsNumberOffset;
+   ProofSetOffset; BlobIdOffset; BodyOffsetEnd; PoliciesOffset; InputsOffset; OutputsOffset; WitnessesOffset;
+   MintTxPointerOffset; InputContractOffset; OutputContractOffset; MintAmountOffset; MintAssetIdOffset; GasPriceOffset].
+
+(* offset reported for a static field = schema prefix sum; reported at all <-> the kind has the field *)
+Definition static_fn_check (k : kind) (f : tfn) : bool :=
+  match tx_sel k f with
+  | Some s =>
+      match static_path_of s with
+      | Some path =>
+          match spath_off (kind_ty k) path, tx_offset (tx0 k (wit k)) f with
+          | Some (d, _), Some o => d =? o
+          | _, _ => false
+          end
+      | None => match tx_offset (tx0 k (wit k)) f with Some _ => true | None => false end
+      end
+  | None => match tx_offset (tx0 k (wit k)) f with None => true | Some _ => false end
+  end.
+(* (kind, function) pairs that fail: must be empty *)
+Definition static_table_failures : list (string * tfn) :=
+  flat_map (fun k => map (fun f => (kind_name k, f)) (filter (fun f => negb (static_fn_check k f)) all_tfn)) all_kinds.
+Lemma static_table_ok : static_table_failures = [].
+Proof. vm_compute. reflexivity. Qed.
+
+Lemma static_fn_check_all k f : static_fn_check k f = true.
+Proof. destruct k, f; vm_compute; reflexivity. Qed.
+
+(* the static offsets do not depend on the value *)
+Definition is_static (k : kind) (f : tfn) : bool :=
+  match tx_sel k f with
+  | Some s => match static_path_of s with Some _ => true | None => false end
+  | None => false
+  end.
+Lemma static_indep k f v : shaped (kind_ty k) v = true -> is_static k f = true ->
+  tx_offset (tx0 k v) f = tx_offset (tx0 k (wit k)) f.
+Proof.
+  intros H Hs. destruct k, f; vm_compute in Hs; try discriminate Hs; try reflexivity; shape H; reflexivity.
+Qed.
+
+(* C04 for the static fields of a transaction: the reported offset is the schema's prefix sum,
+   and the bytes there are the field's canonical (static) bytes *)
+Theorem tx_static_locates k f v s o :
+  typed (kind_ty k) v = true -> tx_sel k f = Some s -> is_static k f = true ->
+  tx_offset (tx0 k v) f = Some o ->
+  exists ft fv, typed ft fv = true /\ locate_in (kind_ty k) v s = Some (o, enc_static ft fv) /\
+                slice (enc (kind_ty k) v) o (lenN (enc_static ft fv)) = enc_static ft fv.
+Proof.
+  intros Hv Hs Hst Ho. pose proof (static_fn_check_all k f) as C. unfold static_fn_check in C.
+  unfold is_static in Hst. rewrite Hs in C, Hst.
+  destruct (static_path_of s) as [path|] eqn:Ep; [|discriminate Hst].
+  rewrite <- (static_indep k f v (typed_shaped _ _ Hv)) in C by (unfold is_static; rewrite Hs, Ep; reflexivity).
+  rewrite Ho in C. destruct (spath_off (kind_ty k) path) as [[d ft]|] eqn:Ed; [|discriminate C].
+  apply N.eqb_eq in C. subst d.
+  destruct (static_path_locates _ v path o ft Hv Ed) as (fv & Hfv & L).
+  rewrite <- (static_path_sel s path Ep) in L.
+  exists ft, fv. repeat split; try assumption. apply (locate_sound _ _ _ _ _ L).
+Qed.
+
+(* a transaction-level offset function answers None exactly when the kind has no such field *)
+Theorem tx_offset_none_iff k f v m :
+  tx_offset {| o_kind := k; o_val := v; o_meta := m |} f = None <-> tx_sel k f = None.
+Proof. destruct k, f; split; intros H; first [reflexivity | discriminate H]. Qed.
+
+(* ---------------------------------------------------------------- InputRepr / OutputRepr tables *)
+Definition all_infn : list infn :=
+  [UtxoIdOffset; OwnerOffset; AssetIdOffset; DataOffset; CoinPredicateOffset; ContractBalanceRootOffset;
+   ContractStateRootOffset; ContractIdOffset; MessageSenderOffset; MessageRecipientOffset; MessageNonceOffset;
+   TxPointerOffsetI; PredicateOffset; PredicateDataOffset; PredicateLen; PredicateDataLen; InputDataLen].
+Definition is_len_fn (f : infn) : bool :=
+  match f with PredicateLen | PredicateDataLen | InputDataLen => true | _ => false end.
+
+(* static field: table value = 8 (discriminant) + schema prefix sum; dynamic field: reported;
+   no such field in this variant: None *)
+Definition in_fn_check (f : infn) (j : nat) : bool :=
+  let iv := VE j [VUnit] in
+  match in_field_of f j with
+  | Some (n, PStatic) =>
+      match spath_off (input_comp j) [n], input_fn f iv with
+      | Some (d, _), Some o => 8 + d =? o
+      | _, _ => false
+      end
+  | Some (_, _) => match input_fn f iv with Some _ => true | None => false end
+  | None => is_len_fn f || match input_fn f iv with None => true | Some _ => false end
+  end.
+Definition input_repr_failures : list (infn * nat) :=
+  flat_map (fun f => map (fun j => (f, j)) (filter (fun j => negb (in_fn_check f j)) (seq 0 7))) all_infn.
+Lemma input_repr_table_ok : input_repr_failures = [].
+Proof. vm_compute. reflexivity. Qed.
+
+Lemma lt7 j : (j < 7)%nat -> j = 0%nat \/ j = 1%nat \/ j = 2%nat \/ j = 3%nat \/ j = 4%nat \/ j = 5%nat \/ j = 6%nat.
+Proof. lia. Qed.
+Lemma in_fn_check_all f j : (j < 7)%nat -> in_fn_check f j = true.
+Proof.
+  intros H. destruct (lt7 j H) as [-> | [-> | [-> | [-> | [-> | [-> | ->]]]]]]; destruct f; vm_compute; reflexivity.
+Qed.
+
+Lemma locate_input j x s' : (j < 7)%nat ->
+  locate_in S_Input (VE j [x]) (SVariant (nth j input_names "") s') =
+  locate (input_comp j) x s' 8 (lenN (enc_static S_Input (VE j [x]))).
+Proof.
+  intros H. unfold locate_in, S_Input, input_comp. cbn [locate]. rewrite String.eqb_refl. reflexivity.
+Qed.
+
+(* C04 for the static fields of an input (offsets relative to the input's own encoding) *)
+Theorem input_static_locates f j x n o :
+  (j < 7)%nat -> typed (input_comp j) x = true -> in_field_of f j = Some (n, PStatic) ->
+  input_fn f (VE j [x]) = Some o ->
+  exists s ft fv, in_sel f j = Some s /\ typed ft fv = true /\
+    locate_in S_Input (VE j [x]) s = Some (o, enc_static ft fv) /\
+    slice (enc S_Input (VE j [x])) o (lenN (enc_static ft fv)) = enc_static ft fv.
+Proof.
+  intros Hj Hx Hf Ho. pose proof (in_fn_check_all f j Hj) as C. unfold in_fn_check in C. rewrite Hf in C.
+  assert (Ei : input_fn f (VE j [x]) = input_fn f (VE j [VUnit])).
+  { destruct f; try reflexivity;
+      destruct (lt7 j Hj) as [-> | [-> | [-> | [-> | [-> | [-> | ->]]]]]]; vm_compute in Hf; discriminate Hf. }
+  rewrite <- Ei, Ho in C. destruct (spath_off (input_comp j) [n]) as [[d ft]|] eqn:Ed; [|discriminate C].
+  apply N.eqb_eq in C. subst o.
+  destruct (spath_ok [n] (input_comp j) x d ft Hx Ed) as (fv & Hfv & L).
+  exists (SVariant (nth j input_names "") (fld n PStatic)), ft, fv.
+  assert (Es : in_sel f j = Some (SVariant (nth j input_names "") (fld n PStatic))) by (unfold in_sel; rewrite Hf; reflexivity).
+  assert (Lc : locate_in S_Input (VE j [x]) (SVariant (nth j input_names "") (fld n PStatic)) = Some (8 + d, enc_static ft fv)).
+  { rewrite (locate_input j x _ Hj). destruct (L (SHere PStatic) 8 (lenN (enc_static S_Input (VE j [x])))) as [dyo' Ld].
+    change (fld n PStatic) with (sel_path [n] (SHere PStatic)). rewrite Ld, locate_here_static. reflexivity. }
+  repeat split; try assumption. apply (locate_sound _ _ _ _ _ Lc).
+Qed.
+
+(* an InputRepr / Input offset function answers None exactly when the variant has no such field *)
+Theorem input_fn_none_iff f j x : (j < 7)%nat -> is_len_fn f = false ->
+  (input_fn f (VE j [x]) = None <-> in_sel f j = None).
+Proof.
+  intros Hj Hl.
+  destruct (lt7 j Hj) as [-> | [-> | [-> | [-> | [-> | [-> | ->]]]]]]; destruct f; try discriminate Hl;
+    split; intros H; first [reflexivity | discriminate H].
+Qed.
+
+(* ---- outputs *)
+Definition all_outfn : list outfn :=
+  [ToOffset; AssetIdOffsetO; ContractBalanceRootOffsetO; ContractStateRootOffsetO; ContractCreatedStateRootOffset; ContractIdOffsetO].
+Definition output_variants : variants := match S_Output with TEnum vs => vs | _ => VNil end.
+Definition out_path (f : outfn) (j : nat) : option (list string) :=
+  match out_sel f j with
+  | Some (SVariant _ s') => static_path_of s'
+  | _ => None
+  end.
+Definition out_fn_check (f : outfn) (j : nat) : bool :=
+  let ov := VE j [] in
+  match out_sel f j, nth_variant_named output_variants j with
+  | Some _, Some (_, fs) =>
+      match out_path f j with
+      | Some path =>
+          match spath_off (TStruct None fs) path, output_fn f ov with
+          | Some (d, _), Some o => 8 + d =? o
+          | _, _ => false
+          end
+      | None => false
+      end
+  | None, _ => match output_fn f ov with None => true | Some _ => false end
+  | _, _ => false
+  end.
+Definition output_repr_failures : list (outfn * nat) :=
+  flat_map (fun f => map (fun j => (f, j)) (filter (fun j => negb (out_fn_check f j)) (seq 0 5))) all_outfn.
+Lemma output_repr_table_ok : output_repr_failures = [].
+Proof. vm_compute. reflexivity. Qed.
+
+Lemma out_fn_check_all f j : (j < 5)%nat -> out_fn_check f j = true.
+Proof.
+  intros H. assert (C : j = 0%nat \/ j = 1%nat \/ j = 2%nat \/ j = 3%nat \/ j = 4%nat) by lia.
+  destruct C as [-> | [-> | [-> | [-> | ->]]]]; destruct f; vm_compute; reflexivity.
+Qed.
+
+Lemma locate_enum vars : forall j vs n fs m s'' so dyo, nth_variant_named vars j = Some (n, fs) ->
+  locate (TEnum vars) (VE j vs) (SVariant n (SField m s'')) so dyo = locate_fields fs vs m s'' (so + 8) dyo.
+Proof.
+  cbn [locate]. induction vars as [|n' d fs' r IH]; intros j vs n fs m s'' so dyo H; [destruct j; discriminate H|].
+  destruct j as [|j]; cbn [nth_variant_named] in H; cbn [locate_variants].
+  - injection H as <- <-. rewrite String.eqb_refl. reflexivity.
+  - apply IH, H.
+Qed.
+Lemma typed_variant_fields vars : forall j vs n fs, nth_variant_named vars j = Some (n, fs) ->
+  typed_variants vars j vs = true -> typed_fields fs vs = true.
+Proof.
+  induction vars as [|n' d fs' r IH]; intros j vs n fs H T; [destruct j; discriminate H|].
+  destruct j as [|j]; cbn [nth_variant_named] in H; cbn [typed_variants] in T.
+  - injection H as <- <-. apply andb_true_iff in T as [_ T]. exact T.
+  - eapply IH; eauto.
+Qed.
+
+(* C04 for the fields of an output (offsets relative to the output's own encoding; all static) *)
+Theorem output_static_locates f j vs s o :
+  typed S_Output (VE j vs) = true -> out_sel f j = Some s -> output_fn f (VE j vs) = Some o ->
+  exists ft fv, typed ft fv = true /\ locate_in S_Output (VE j vs) s = Some (o, enc_static ft fv) /\
+                slice (enc S_Output (VE j vs)) o (lenN (enc_static ft fv)) = enc_static ft fv.
+Proof.
+  intros Hv Hs Ho.
+  assert (Hj : (j < 5)%nat).
+  { destruct (Nat.lt_ge_cases j 5) as [Hl | Hg]; [exact Hl|]. exfalso.
+    do 5 (destruct j as [|j]; [lia|]). destruct f; vm_compute in Hs; discriminate Hs. }
+  pose proof (out_fn_check_all f j Hj) as C. unfold out_fn_check in C. rewrite Hs in C.
+  destruct (nth_variant_named output_variants j) as [[vn fs]|] eqn:Ev; [|discriminate C].
+  unfold out_path in C. rewrite Hs in C.
+  destruct s as [|?|name s'|?]; try discriminate C.
+  destruct (static_path_of s') as [path|] eqn:Ep; [|discriminate C].
+  destruct (spath_off (TStruct None fs) path) as [[d ft]|] eqn:Ed; [|discriminate C].
+  change (output_fn f (VE j [])) with (output_fn f (VE j vs)) in C. rewrite Ho in C.
+  apply N.eqb_eq in C. subst o.
+  (* the selector names the j-th variant *)
+  assert (En : name = vn).
+  { assert (D : j = 0%nat \/ j = 1%nat \/ j = 2%nat \/ j = 3%nat \/ j = 4%nat) by lia.
+    destruct D as [-> | [-> | [-> | [-> | ->]]]]; destruct f; vm_compute in Hs; try discriminate Hs;
+      vm_compute in Ev; congruence. }
+  subst name.
+  assert (Tf : typed (TStruct None fs) (VS vs) = true).
+  { cbn [typed]. apply (typed_variant_fields output_variants j vs vn fs Ev). exact Hv. }
+  destruct (spath_ok path (TStruct None fs) (VS vs) d ft Tf Ed) as (fv & Hfv & L).
+  exists ft, fv.
+  assert (Lc : locate_in S_Output (VE j vs) (SVariant vn s') = Some (8 + d, enc_static ft fv)).
+  { rewrite (static_path_sel s' path Ep). destruct path as [|m rest]; [vm_compute in Ed; injection Ed as <- <-|].
+    - (* the selector always goes into a field *)
+      exfalso. assert (D : j = 0%nat \/ j = 1%nat \/ j = 2%nat \/ j = 3%nat \/ j = 4%nat) by lia.
+      destruct D as [-> | [-> | [-> | [-> | ->]]]]; destruct f; vm_compute in Hs; try discriminate Hs;
+        injection Hs as E1 E2; subst s'; vm_compute in Ep; discriminate Ep.
+    - unfold locate_in. change S_Output with (TEnum output_variants). cbn [sel_path].
+      rewrite (locate_enum output_variants j vs vn fs m _ _ _ Ev).
+      destruct (L (SHere PStatic) 8 (lenN (enc_static (TEnum output_variants) (VE j vs)))) as [dyo' Ld].
+      cbn [sel_path locate] in Ld. rewrite N.add_0_r in Ld. rewrite N.add_0_l. rewrite Ld, locate_here_static. reflexivity. }
+  repeat split; try assumption. apply (locate_sound _ _ _ _ _ Lc).
+Qed.
+
+Theorem output_fn_none_iff f j vs : (j < 5)%nat -> (output_fn f (VE j vs) = None <-> out_sel f j = None).
+Proof.
+  intros Hj. assert (D : j = 0%nat \/ j = 1%nat \/ j = 2%nat \/ j = 3%nat \/ j = 4%nat) by lia.
+  destruct D as [-> | [-> | [-> | [-> | ->]]]]; destruct f; split; intros H; first [reflexivity | discriminate H].
 Qed.
